@@ -4,6 +4,7 @@ import (
 	"encoding/json"
 	"fmt"
 	"math/big"
+	"reflect"
 	"strings"
 
 	"github.com/google/jsonschema-go/jsonschema"
@@ -28,7 +29,52 @@ type findingClass struct {
 	Match func(f Finding) bool
 }
 
-var findingClasses []findingClass
+var findingClasses = []findingClass{
+	{"duplicate-json-name", func(f Finding) bool {
+		// C04: a struct with two fields of the same JSON name at one depth (encoding/json emits neither)
+		if f.Kind != "encoding-rejected" || !strings.HasPrefix(f.Skeleton, "F-types/") {
+			return false
+		}
+		for _, tc := range TypeFamily() {
+			if "F-types/"+tc.Name == f.Skeleton {
+				return hasDuplicateJSONNames(tc.T)
+			}
+		}
+		return false
+	}},
+	{"float32-overflow", func(f Finding) bool {
+		// C09: a number beyond the float32 range validates against {"type":"number"} but does not decode into float32
+		return f.Kind == "accepted-but-not-decodable" && strings.Contains(f.Observed, "float32")
+	}},
+}
+
+func hasDuplicateJSONNames(t reflect.Type) bool {
+	for t.Kind() == reflect.Pointer || t.Kind() == reflect.Slice || t.Kind() == reflect.Array || t.Kind() == reflect.Map {
+		t = t.Elem()
+	}
+	if t.Kind() != reflect.Struct {
+		return false
+	}
+	seen := map[string]bool{}
+	for i := 0; i < t.NumField(); i++ {
+		sf := t.Field(i)
+		if !sf.IsExported() || sf.Anonymous {
+			continue
+		}
+		name, _, _ := strings.Cut(sf.Tag.Get("json"), ",")
+		if sf.Tag.Get("json") == "-" {
+			continue
+		}
+		if name == "" {
+			name = sf.Name
+		}
+		if seen[name] {
+			return true
+		}
+		seen[name] = true
+	}
+	return false
+}
 
 func init() {
 	Checks["C01"] = checkC01
